@@ -3,6 +3,7 @@ import RModel.Impl.Repr
 import RModel.Impl.ArrayC
 import RModel.Impl.ContOps
 import RModel.Impl.ContQuery
+import RModel.Impl.ContMut
 import RModel.Driver.Ser
 /-! container-kernel command family: direct calls of the unexported 16-bit kernels (C01, C03, C15, C16 amplifier). -/
 namespace RModel.Driver
@@ -176,6 +177,40 @@ def stepKern (st : St) (cmd : List String) (got : String) : Option (St × Verdic
                 if r == resS then none else some ("L2 toEfficient model = Go representation; model: " ++ r.take 300)
               else none
           let resOk := match resOk with | some m => some m | none => l2Exact
+          let l2Mut : Verdict :=
+            let x : Nat := (args.getD 0 0).toNat
+            let y : Nat := (args.getD 1 0).toNat
+            let nonneg := args.all (· ≥ 0)
+            let chk (e : Cont) : Verdict :=
+              let r := renderCont e
+              if r == resS then none else some ("L2 container model = Go representation; model: " ++ r.take 300)
+            let chkB (e : Cont × Bool) : Verdict :=
+              match chk e.1 with
+              | some m => some m
+              | none => if scS == (if e.2 then "1" else "0") then none
+                        else some ("L2 container model = Go boolean; model: " ++ toString e.2)
+            match cb with
+            | none =>
+              if !ca.wf || !nonneg then none else
+              match op, args.length with
+              | "iaddReturnMinimized", 1 => if x < C16 then chk (ca.iaddRM x) else none
+              | "iremoveReturnMinimized", 1 => if x < C16 then chk (ca.iremoveRM x) else none
+              | "iadd", 1 => if x < C16 then chkB (ca.iadd x) else none
+              | "iremove", 1 => if x < C16 then chkB (ca.iremove x) else none
+              | "iaddRange", 2 => if x ≤ y && y ≤ C16 then chk (ca.iaddRange x y) else none
+              | "iremoveRange", 2 => if x ≤ y && y ≤ C16 then chk (ca.iremoveRange x y) else none
+              | "not", 2 => if x ≤ y && y ≤ C16 then chk (ca.notRange x y) else none
+              | "inot", 2 => if x ≤ y && y ≤ C16 then chk (ca.inotRange x y) else none
+              | _, _ => none
+            | some cb' =>
+              if !ca.wf || !cb'.wf then none else
+              match op with
+              | "iand" => chk (ca.iand2 cb')
+              | "ior" => chk (ca.ior2 cb')
+              | "ixor" => chk (ca.ixor2 cb')
+              | "iandNot" => chk (ca.iandNot2 cb')
+              | _ => none
+          let resOk := match resOk with | some m => some m | none => l2Mut
           some (st, match resOk, scOk, aliasOk, bOk, aOk with
             | some m, _, _, _, _ => some m
             | _, some m, _, _, _ => some m
